@@ -208,13 +208,13 @@ class Interval:
                             else:
                                 aee, aes = abs(ee), abs(es)
                                 if aes > aee:
-                                    return Interval(expr.Const(0), normalize_constant(self.start ** expr.Const(2)), \
+                                    return Interval(expr.Const(0), normalize_constant(self.start ** other.start), \
                                                     False, self.left_open)
                                 elif aes == aee:
-                                    return Interval(expr.Const(0), normalize_constant(self.start ** expr.Const(2)), \
+                                    return Interval(expr.Const(0), normalize_constant(self.start ** other.start), \
                                                     False, self.left_open and self.right_open)
                                 else:
-                                    return Interval(expr.Const(0), normalize_constant(self.end ** expr.Const(2)), \
+                                    return Interval(expr.Const(0), normalize_constant(self.end ** other.start), \
                                                     False, self.right_open)
                 return Interval.ropen(expr.Const(0), expr.POS_INF)
             elif eval_expr(other.start) > 0:
